@@ -52,12 +52,10 @@ func (e *ColEnum) AppendArr(vs []string) {
 }
 
 func (e *ColEnum) parse(t ColumnType) error {
-	if e.rawToStr == nil {
-		e.rawToStr = map[int]string{}
-	}
-	if e.strToRaw == nil {
-		e.strToRaw = map[string]int{}
-	}
+	// Every definition list replaces the previous one, so values that only
+	// an earlier type defined do not stay valid.
+	rawToStr := map[int]string{}
+	strToRaw := map[string]int{}
 
 	elements := t.Elem().String()
 	for _, elem := range strings.Split(elements, ",") {
@@ -76,9 +74,11 @@ func (e *ColEnum) parse(t ColumnType) error {
 		left = strings.TrimFunc(left, func(c rune) bool {
 			return c == '\''
 		})
-		e.strToRaw[left] = idx
-		e.rawToStr[idx] = left
+		strToRaw[left] = idx
+		rawToStr[idx] = left
 	}
+	e.rawToStr = rawToStr
+	e.strToRaw = strToRaw
 	return nil
 }
 
@@ -86,16 +86,16 @@ func (e *ColEnum) Infer(t ColumnType) error {
 	if !strings.HasPrefix(t.Base().String(), "Enum") {
 		return errors.Errorf("invalid base %q to infer enum", t.Base())
 	}
-	if err := e.parse(t); err != nil {
-		return errors.Wrap(err, "parse type")
-	}
 	base := t.Base()
 	switch base {
 	case ColumnTypeEnum8, ColumnTypeEnum16:
-		e.base = base
 	default:
 		return errors.Errorf("invalid base %q", base)
 	}
+	if err := e.parse(t); err != nil {
+		return errors.Wrap(err, "parse type")
+	}
+	e.base = base
 	e.t = t
 	return nil
 }
